@@ -32,8 +32,26 @@ def run(ctx):
             ctx.case([inst["tag"], [l for l in concrete.splitlines() if l.startswith("~")]])
     fails, _ = ctx.validate("Trace_Read", {"traces": [[e] for e in events]})
     lastext.judge(ctx, events, meta, fails)
+    # recorded finding D38: LAS 3.0 title heuristics applied to 1.2 / 2.0 files -- a ~C / ~P title that contains an underscore is
+    # filed as a custom section, a custom section whose title contains "_Data" is dropped.  A dedicated probe: the same abstract
+    # texts with exactly those title spellings; whatever clause fails on them is reported under the recorded clause.
+    pick = [i for i in insts if i["tag"][0] == "perm" and all(x in i["tag"][1] for x in ("C", "P", "X1")) and i["tag"][5] == 2][:6]
+    pev, pmeta = [], []
+    for inst in pick:
+        for style in ({"C": "~Curve_Information"}, {"P": "~Parameter_Info"}, {"X1": "~Tool_Data"}):
+            concrete = lastext.concretise(inst["text"], rng, {"title": style})
+            pev.append(lastext.read_event("C05", inst, concrete, engines=("normal",)))
+            pmeta.append({"tag": inst["tag"], "title": style, "concrete": concrete})
+            ctx.evaluations += 1
+            ctx.case(["D38-probe", inst["tag"], sorted(style.items())])
+    if pev:
+        pf, _ = ctx.validate("Trace_Read", {"traces": [[e] for e in pev]})
+        for tid in sorted(set(t for t, _, c in pf if not c.startswith("Harness."))):
+            ctx.report("C05.Sections.known-D38", "title %s: %s" % (pmeta[tid]["title"], sorted(set(c for t, _, c in pf if t == tid))),
+                       {"meta": pmeta[tid], "event": pev[tid]})
     ctx.sample({"tag": meta[len(meta) // 2]["tag"], "concrete": meta[len(meta) // 2]["concrete"],
                 "observed": events[len(events) // 2].get("res")})
     ctx.assumptions += ["~V first; each standard section at most once; titles start in column 0; WRAP NO; ~W and ~C always present "
-                        "(absent standard sections must keep lasio's default content); ~O bodies hold free text lines only"]
+                        "(absent standard sections must keep lasio's default content); ~O bodies hold free text lines only",
+                        "titles of ~C / ~P with an underscore and custom titles containing '_Data' are exercised by the D38 probe only"]
     return ctx.finish(RULE)
